@@ -264,7 +264,7 @@ def check(ctx, run):
             t = text_of(v)
             return None if t is None else ("str", " ".join("%02X" % x for x in t))
         ev = Evaluator(prog, f, env=env, calls=string_hooks({
-            "PrintableStringFromOrNull": pr, "PrintableStringFrom": pr, "StringFromBinaryOrNull": hexs, "StringFromBinary": hexs,
+            "PrintableStringFromOrNull": pr, "StringFromBinaryOrNull": hexs, "StringFromBinary": hexs,
             "TestFailure::createButWasString": lambda *a_: (log["butwas"].append(a_[-2:]), ("str", ""))[1],
             "TestFailure::createDifferenceAtPosString": lambda *a_: (log["diff"].append(a_[-3:]), ("str", ""))[1],
             "TestFailure::createUserText": lambda *a_: ("str", "")}))
